@@ -125,6 +125,11 @@ func cacheMain(s *simrt.Sim, info *harness.RunInfo) {
 		sim = harness.NewSimStorage(s, "cache-store")
 		sim.KeyOracle = "C14.storage-key-aliases-request-buffer"
 		cfg.Storage = sim
+		// a storage behind a wire: some calls take time (no errors: the middleware ignores them by design)
+		if s.Chance(350) {
+			sim.DelayPermille = simrt.PickS(s, 100, 300, 600)
+			sim.Delays = []time.Duration{time.Millisecond, 300 * time.Millisecond, 700 * time.Millisecond, 1100 * time.Millisecond}
+		}
 		if maxBytes > 0 {
 			sim.OnOp = func(op, key string) {
 				total := 0
@@ -139,8 +144,13 @@ func cacheMain(s *simrt.Sim, info *harness.RunInfo) {
 			}
 		}
 	}
-	cfgLine := fmt.Sprintf("storage=%s maxBytes=%d E=%d expGen=%v inval=%v storeHdr=%v cacheControl=%v next=%v paths=%d clients=%d preempt=%d phase=%d",
-		map[bool]string{false: "memory", true: "sim"}[useSim], maxBytes, E, expGen, useInval, storeHdr, cacheCtl, useNext, npaths, nclients, preempt, phase)
+	cfgLine := fmt.Sprintf("storage=%s maxBytes=%d E=%d expGen=%v inval=%v storeHdr=%v cacheControl=%v next=%v paths=%d clients=%d preempt=%d phase=%d storageDelays=%d",
+		map[bool]string{false: "memory", true: "sim"}[useSim], maxBytes, E, expGen, useInval, storeHdr, cacheCtl, useNext, npaths, nclients, preempt, phase, func() int {
+			if sim != nil {
+				return sim.DelayPermille
+			}
+			return 0
+		}())
 	s.Logf("cfg %s", cfgLine)
 
 	nexec := 0
@@ -290,10 +300,16 @@ func cacheMain(s *simrt.Sim, info *harness.RunInfo) {
 			continue
 		}
 		x := byBody[r.body]
-		if x == nil && r.body == "" && r.xcache == "hit" && sim != nil && sim.ExpiredGetBetween(r.method+"_body", r.path, r.issue, r.ret) {
-			// the item was still alive, its separately stored body had just expired
-			s.Fail("C14.hit-body-expired-separately", "op%d %s %s: hit with status %d and an empty body: the external storage expired %q between the lookup of the entry and of its body", r.id, r.method, r.path, r.status, r.path+"_"+r.method+"_body")
-			continue
+		if x == nil && r.body == "" && r.xcache == "hit" && sim != nil {
+			if found, earlier := sim.ExpiredGetBetween2(r.method+"_body", r.path, r.issue, r.ret); found && earlier {
+				// the body record had been stored with an earlier expiry than the entry referring to it
+				s.Fail("C14.hit-body-expired-before-entry", "op%d %s %s: hit with status %d and an empty body: the external storage held %q with an earlier expiry than the entry that refers to it", r.id, r.method, r.path, r.status, r.path+"_"+r.method+"_body")
+				continue
+			} else if found {
+				// entry and body expire together; the entry was looked up just before, the body just after that moment
+				s.Fail("C14.hit-body-expired-separately", "op%d %s %s: hit with status %d and an empty body: the external storage expired %q between the lookup of the entry and of its body", r.id, r.method, r.path, r.status, r.path+"_"+r.method+"_body")
+				continue
+			}
 		}
 		if x == nil {
 			s.Fail("C14.transparent", "op%d %s %s got status %d with a body no origin execution produced: %.40q (cache header %q)", r.id, r.method, r.path, r.status, r.body, r.xcache)
